@@ -91,7 +91,7 @@ def H_history(ctx, cfg):
     env = Env()
     fa = _patched(env)
     DataAccessError = load.mod("accessor").DataAccessError
-    base = "/data/ds"
+    base = "/mfs/ds"
     wf, wg = cfg["writer"]
     rf, rg = cfg["reader"]
     w = fa.FileAccessor(base, flat=wf, gzip=wg, compresslevel=6)
@@ -175,7 +175,7 @@ def _resolves_outside(base, rel):
 
 
 def H_confine(ctx, cfg):
-    base = "/data/ds"
+    base = "/mfs/ds"
     bad = []
     n = 0
     for sp in cfg["spellings"]:
@@ -191,9 +191,9 @@ def H_confine(ctx, cfg):
                     env.install_atexit()
                     acc = sfa.ShardedFileAccessor(base)
                 # a file outside the dataset that must never be read, created or replaced
-                env.fs.mkdir_p("/data/ds/a")
-                env.fs.mkdir_p("/data/a")
-                for victim in ("/data/a", "/a", "/data/b:0", "/b:0", "/data/ds/../x"):
+                env.fs.mkdir_p("/mfs/ds/a")
+                env.fs.mkdir_p("/mfs/a")
+                for victim in ("/mfs/a", "/a", "/data/b:0", "/b:0", "/data/ds/../x"):
                     pass
                 calls0 = env.fs.calls
                 outside, full = _resolves_outside(base, sp)
